@@ -1,0 +1,75 @@
+//go:build verif
+
+package ssh
+
+import "errors"
+
+// Verification hook for property C34 (client authentication). Add-only, compiled
+// only with the build tag "verif".
+
+// VerifC34Peer is a scripted server sitting directly below clientAuthenticate: it
+// is handed every packet the client writes and supplies every packet the client
+// reads. Both methods are called synchronously on the goroutine that runs
+// VerifC34ClientAuthenticate.
+type VerifC34Peer interface {
+	// ClientWrote receives a private copy of a packet passed to writePacket;
+	// a non-nil error is returned to the client as the write error.
+	ClientWrote(packet []byte) error
+	// NextPacket supplies the result of the client's next readPacket call.
+	NextPacket() ([]byte, error)
+}
+
+// verifC34Transport implements connTransport on top of a VerifC34Peer. Like the
+// real transport (connectionState.readPacket) it turns an incoming
+// SSH_MSG_DISCONNECT into a *disconnectMsg error and rejects empty packets.
+type verifC34Transport struct {
+	peer      VerifC34Peer
+	sessionID []byte
+}
+
+func (t *verifC34Transport) writePacket(p []byte) error {
+	return t.peer.ClientWrote(append([]byte(nil), p...))
+}
+
+func (t *verifC34Transport) readPacket() ([]byte, error) {
+	p, err := t.peer.NextPacket()
+	if err != nil {
+		return nil, err
+	}
+	if len(p) == 0 {
+		return nil, errors.New("ssh: zero length packet")
+	}
+	if p[0] == msgDisconnect {
+		var msg disconnectMsg
+		if err := Unmarshal(p, &msg); err != nil {
+			return nil, err
+		}
+		return nil, &msg
+	}
+	return append([]byte(nil), p...), nil
+}
+
+func (t *verifC34Transport) Close() error                        { return nil }
+func (t *verifC34Transport) getAlgorithms() NegotiatedAlgorithms { return NegotiatedAlgorithms{} }
+func (t *verifC34Transport) getSessionID() []byte                { return t.sessionID }
+func (t *verifC34Transport) waitSession() error                  { return nil }
+
+// VerifC34ClientAuthenticate runs the real (*connection).clientAuthenticate with
+// the given configuration (defaults applied as NewClientConn does) against peer,
+// using sessionID as the session identifier of the (absent) key exchange.
+func VerifC34ClientAuthenticate(config *ClientConfig, sessionID []byte, peer VerifC34Peer) error {
+	fullConf := *config
+	fullConf.SetDefaults()
+	c := &connection{
+		transport: &verifC34Transport{peer: peer, sessionID: sessionID},
+		sshConn:   sshConn{user: fullConf.User, sessionID: sessionID},
+	}
+	return c.clientAuthenticate(&fullConf)
+}
+
+// VerifC34IsDisconnect reports whether err is the error the transport produces
+// for a received SSH_MSG_DISCONNECT.
+func VerifC34IsDisconnect(err error) bool {
+	_, ok := err.(*disconnectMsg)
+	return ok
+}
